@@ -429,7 +429,7 @@ func clip(b []byte, n int) []byte {
 
 // runWorker runs cases [from,to) in one child; returns the index to continue from and the results.
 // When the child dies or stalls on a case, that case gets the verdict and next = its index + 1.
-func runWorker(self string, from, to int, memMB uint64, deadline time.Duration) (int, []caseResult) {
+func runWorkerOnce(self string, from, to int, memMB uint64, deadline time.Duration) (int, []caseResult) {
 	cmd := exec.Command(self, "sweepworker", "-from", strconv.Itoa(from), "-to", strconv.Itoa(to), "-mem", strconv.FormatUint(memMB, 10))
 	cmd.Env = append(os.Environ(), "GOTRACEBACK=single")
 	stdout, _ := cmd.StdoutPipe()
@@ -504,6 +504,31 @@ func runWorker(self string, from, to int, memMB uint64, deadline time.Duration) 
 			return cur + 1, rs
 		}
 	}
+}
+
+// runWorker: runWorkerOnce, and a second opinion on every HANG.  The per-case deadline is wall-clock time: on a machine that
+// is busy with other things a case that is merely slow would be taken for a hang (it happened: the whole check took four
+// times its usual time in a loaded sandbox and one case missed the 8 s).  A case that misses the deadline is therefore run
+// again, alone, with ten times the deadline; it is a HANG only if it misses that one too.
+func runWorker(self string, from, to int, memMB uint64, deadline time.Duration) (int, []caseResult) {
+	next, rs := runWorkerOnce(self, from, to, memMB, deadline)
+	for i, r := range rs {
+		if r.Verdict != VHang {
+			continue
+		}
+		_, again := runWorkerOnce(self, r.Idx, r.Idx+1, memMB, 10*deadline)
+		for _, a := range again {
+			if a.Idx == r.Idx {
+				if a.Verdict == VHang {
+					a.Detail = fmt.Sprintf("no result within %s, and again none within %s when run alone: %s", deadline, 10*deadline, a.Detail)
+				} else {
+					a.Detail = strings.TrimSpace(a.Detail + fmt.Sprintf(" (slow: missed the %s deadline once on a busy machine, completed when run alone)", deadline))
+				}
+				rs[i] = a
+			}
+		}
+	}
+	return next, rs
 }
 
 // replayCase runs one case (by name) in a worker child and prints its verdict
